@@ -574,7 +574,7 @@ K_STRNEST = "string-literal-for-nested-char-array"
 # pieces of string literals: (spelling, byte); a \x escape is only ever followed by a non-hex character
 STR_PIECES = [("a", 97), ("Z", 90), ("0", 48), (" ", 32), ("\\n", 10), ("\\t", 9), ("\\\\", 92), ("\\\"", 34),
               ("\\377", 255), ("\\200", 128), ("\\376", 254), ("\\177", 127), ("\\xffg", None), ("\\x80s", None),
-              ("\\101", 65), ("\\1", 1)]
+              ("\\101", 65), ("\\001", 1)]
 CHAR_TYPES = ("char", "schar", "uchar")
 
 
@@ -615,7 +615,11 @@ def char_array_init(r, avoid, tags, nested):
     if use_string:
         init = '"%s"' % txt
         if r.random() < 0.15 and not nested:
-            init = "{%s}" % init      # char s[] = {"abc"}; is valid too
+            # char s[] = {"abc"}; is valid too; ppci: TypeError in eval_cast (same root: only a string that
+            # is the whole initialiser is converted to an array initialiser)
+            if K_STRNEST not in avoid:
+                tags.add(K_STRNEST)
+                init = "{%s}" % init
     else:
         init = "{%s}" % ", ".join(str(b) if b < 0x80 else r.choice((str(b), "'\\%o'" % b)) for b in data) if data else "{0}"
     return ("" if mode == "unsized" else str(size)), init, img
